@@ -6,5 +6,5 @@ D=$(mktemp -d /var/tmp/seedpar.XXXXXX)
 rsync -a --exclude target --exclude .git /repo/ "$D/repo/"
 ( cd "$D/repo" && git init -q . 2>/dev/null && git apply "$P" ) || { echo "patch does not apply"; rm -rf "$D"; exit 3; }
 rc=0
-for p in "$@"; do (cd /verif && VERIF_REPO="$D/repo" ./check $p --no-evidence | grep -v "^  " | cut -c1-600); done
+for p in "$@"; do (cd /verif && VERIF_REPO="$D/repo" ./check $p --no-evidence | grep -v "^  ok" | cut -c1-600); done
 rm -rf "$D"
